@@ -2,7 +2,7 @@
    series, stored populations = initial population followed by the population after each iteration,
    every recorded value equal to its definition on the neighbouring stored population; also for a
    resumed run.  Any numeric instance, any oracle. *)
-From Coq Require Import Reals List Bool Arith.
+From Coq Require Import Reals List Bool Arith ZArith PrimFloat.
 From AV Require Import Lib.Num Model.SMC Proofs.Schedule Proofs.SMCGeneric Proofs.SMCReal.
 Import ListNotations.
 
@@ -53,6 +53,30 @@ Proof.
   exists out, evs'. auto.
 Qed.
 
+(* KNOWN FINDING (known_findings.json, C18 "series-length:mcmc_acceptance:enlargement"): the acceptance
+   series gets one entry per kernel invocation, and the final enlargement (n_final_samples) invokes the
+   kernel once more.  Full statement "h_nmut = iterations" is refuted by a concrete binary64 run;
+   the partial statement says exactly when the extra entry appears. *)
+Definition c18_witness :=
+  sample NumF unit unit (fun _ _ => nan) (fun _ _ => nan) (fun _ _ => 0%float) (fun _ _ => 0%float)
+         (fun _ => 0.5%float) (fun _ => nan) (fun _ => 1%nat) (fun g p _ _ => (p, g)) (fun g p _ _ => (p, g)) 5
+         (Build_opts NumF false 0.5%float 0%float false None 0x1p-20%float (Some 2%nat) true false 1%Z 5%nat) tt tt.
+
+Theorem C18_acceptance_series_refuted :
+  exists out evs, c18_witness = Ok (out, evs) /\ o_iter _ _ _ out = 2%nat /\ h_nmut _ _ (o_hist _ _ _ out) = 3%nat.
+Proof. vm_compute. eexists. eexists. repeat split. Qed.
+
+Theorem C18_acceptance_series_partial : forall (N : Num) (P G : Type) effq essq ratio ratio_var cte pbeta psize resample_o mutate_o
+    fuel o p0 g0 out evs,
+  sample N P G effq essq ratio ratio_var cte pbeta psize resample_o mutate_o fuel o p0 g0 = Ok (out, evs) ->
+  n_final _ o = None -> h_nmut _ _ (o_hist _ _ _ out) = o_iter _ _ _ out.
+Proof.
+  intros N P G effq essq ratio ratio_var cte pbeta psize resample_o mutate_o fuel o p0 g0 out evs H Hn.
+  destruct (sample_nmut _ _ _ _ _ _ _ _ _ _ _ _ _ _ _ _ _ _ H) as [E|(_ & n & E & _)]; [exact E| congruence].
+Qed.
+
+Print Assumptions C18_acceptance_series_refuted.
+Print Assumptions C18_acceptance_series_partial.
 Print Assumptions C18_faithful_record.
 Print Assumptions C18_lengths.
 Print Assumptions C18_after_resume.
